@@ -110,6 +110,12 @@ pub fn res_value(r: Result<Value, String>, code: u32) -> Value {
     }
 }
 
+/// What the chain knows about a stored code id (code ids of the program under test are numbered from 1: code id 1 of the
+/// chain is the child contract of `noop`).
+pub fn code_info_json(c: &sylvia::cw_std::CodeInfoResponse, base: u64) -> Value {
+    json!({"code_id": (c.code_id - base).to_string(), "creator": c.creator.to_string(), "checksum": c.checksum.to_hex()})
+}
+
 pub fn emit_op(prog: &str, hist: usize, step: usize, op: &Value, proxy_res: Value, raw_res: Value, proxy_view: Value, raw_view: Value, same_addr: bool) {
     rt::emit(json!({"ev":"MtOp","prog":prog,"hist":hist,"step":step,"op":op,"panic":"","proxy":{"res":proxy_res,"view":proxy_view},
         "raw":{"res":raw_res,"view":raw_view},"same_addr":same_addr}));
